@@ -249,14 +249,16 @@ func genCase(r *vh.Rand, thorough bool) string {
 				emit("SA %d %d %d %d", k, ign, abo, 1+r.Intn(50))
 			}
 		case x < 139:
-			if p, ok := pickProp(); ok && !committed[p.key] && (nc == 1 || r.Chance(1, 20)) {
+			// without NotifyCommit the code panics inside RequestState.committed(): the harness looks at the
+			// shard lock from there
+			if p, ok := pickProp(); ok && !committed[p.key] && (nc == 1 || r.Chance(1, 5)) {
 				committed[p.key] = true
 				emit("CP %d %d %d", p.cid, p.sid, p.key)
 			}
 		case x < 141:
 			if len(ccs) > 0 {
 				k := ccs[len(ccs)-1]
-				if !committed[k] && (nc == 1 || r.Chance(1, 20)) {
+				if !committed[k] && (nc == 1 || r.Chance(1, 5)) {
 					committed[k] = true
 					emit("CC %d", k)
 				}
